@@ -119,14 +119,14 @@ Qed.
 Section NodeInd.
   Variable Q : node -> Prop.
   Hypothesis HFile : forall f, Q (File f).
-  Hypothesis HFolder : forall nm i ch, Forall Q ch -> Q (Folder nm i ch).
+  Hypothesis HFolder : forall nm i fc ch, Forall Q ch -> Q (Folder nm i fc ch).
   Hypothesis HJunk : Q JunkDict.
   Hypothesis HNon : Q NonDict.
   Fixpoint node_ind' (n : node) : Q n :=
     match n with
     | File f => HFile f
-    | Folder nm i ch =>
-        HFolder nm i ch ((fix go (l : list node) : Forall Q l :=
+    | Folder nm i fc ch =>
+        HFolder nm i fc ch ((fix go (l : list node) : Forall Q l :=
                             match l with
                             | [] => Forall_nil Q
                             | c :: r => Forall_cons c (node_ind' c) (go r)
@@ -156,7 +156,7 @@ Section Walk.
       exists l, run E w (walk E fuel site drive oid path) s = (Ok (spec_files E path ch), adv s (api l)).
 
   Definition node_spec (n : node) : Prop :=
-    match n with Folder _ i ch => walk_spec i ch | _ => True end.
+    match n with Folder _ i _ ch => walk_spec i ch | _ => True end.
 
   Lemma walk_folders_ok : forall ch, Forall node_spec ch ->
     forall path w s t n0 f,
@@ -171,20 +171,20 @@ Section Walk.
     - cbn [forallb] in Hi, Hl. apply andb_true_iff in Hi as [Hi1 Hi2]. apply andb_true_iff in Hl as [Hl1 Hl2].
       assert (Hf' : need_node P c + list_sum (map (need_node P) ch) <= f) by exact Hf. clear Hf. rename Hf' into Hf.
       cbn [flat_map] in Hs.
-      destruct c as [fi|nm i ch'| |];
+      destruct c as [fi|nm i fc ch'| |];
         try (eapply IH; eauto; try (eapply serves_app_r; exact Hs); try (cbn [need_node] in Hf; lia); fail).
-      change (folders_of (map item_of (Folder nm i ch' :: ch))) with ((nm, i) :: folders_of (map item_of ch)).
+      change (folders_of (map item_of (Folder nm i fc ch' :: ch))) with ((nm, i) :: folders_of (map item_of ch)).
       cbn [walk_folders flat_map].
       cbn [ids_ok] in Hi1. apply andb_true_iff in Hi1 as [Hti Hi1]. rewrite Hti.
       cbn [links_ok] in Hl1. apply andb_true_iff in Hl1 as [Hci Hl1].
       cbn [node_spec] in Hc.
       destruct (Hc (join_path path (dflt nm)) w s t n0 f) as [l1 R1]; auto.
       { eapply serves_app_l. exact Hs. }
-      { change (need_node P (Folder nm i ch')) with (need P i ch') in Hf. lia. }
+      { change (need_node P (Folder nm i fc ch')) with (need P i ch') in Hf. lia. }
       destruct (IH path w (adv s (api l1)) t n0 f) as [l2 R2]; auto.
       { eapply serves_app_r. exact Hs. }
       { rewrite nreq_adv. lia. }
-      { change (need_node P (Folder nm i ch')) with (need P i ch') in Hf. unfold need in Hf. lia. }
+      { change (need_node P (Folder nm i fc ch')) with (need P i ch') in Hf. unfold need in Hf. lia. }
       exists (l1 ++ l2). rewrite run_bind, R1. cbv beta iota. rewrite run_bind, R2. cbn [run spec_node].
       rewrite adv_adv. unfold api. rewrite map_app. reflexivity.
   Qed.
@@ -213,7 +213,7 @@ Section Walk.
 
   Lemma node_spec_all : forall n, node_spec n.
   Proof.
-    apply node_ind'; cbn [node_spec]; auto. intros nm i ch HF. apply walk_children. exact HF.
+    apply node_ind'; cbn [node_spec]; auto. intros nm i fc ch HF. apply walk_children. exact HF.
   Qed.
 
   Lemma walk_any : forall oid ch, walk_spec oid ch.
